@@ -1055,6 +1055,11 @@ class _TRSTractList:
             elif isinstance(obj, cls._ok_iterables):
                 for obj_deeper in obj:
                     into.append(obj_deeper)
+            elif isinstance(obj, str):
+                # A string is iterable, but each of its characters is
+                # again a string, so it cannot be unpacked any further.
+                raise TypeError(
+                    f"{cls._typeerror_msg} Cannot accept {type(obj)!r}.")
             else:
                 # Assume it's another list-like object.
                 for obj_deeper in obj:
